@@ -1899,10 +1899,11 @@ func (app *App) repairSlaveNode(node *mysql.Node, clusterState map[string]*nodes
 	state := clusterState[host]
 	// node is real slave or stale master here
 	// state.SlaveState may be nil
+	var readOnlyErr error
 	if !state.IsReadOnly {
-		err := node.SetReadOnly(true)
-		if err != nil {
-			app.logger.Error().Err(err).Msgf("repair: failed to set host %s read-only", host)
+		readOnlyErr = node.SetReadOnly(true)
+		if readOnlyErr != nil {
+			app.logger.Error().Err(readOnlyErr).Msgf("repair: failed to set host %s read-only", host)
 		} else {
 			app.logger.Info().Msgf("repair: slave %s set read-only", host)
 		}
@@ -1915,6 +1916,15 @@ func (app *App) repairSlaveNode(node *mysql.Node, clusterState map[string]*nodes
 		err := app.stopReplicationOnMaster(node)
 		if err != nil {
 			app.logger.Error().Err(err).Msg("repair")
+		}
+		if readOnlyErr != nil {
+			// commits stuck waiting for a semi-sync ACK kept the node from turning read-only above;
+			// their sessions are cut now, and the node must be read-only before it is turned into
+			// a replica (a replica with good lag is brought online again by the same pass)
+			err = node.SetReadOnly(true)
+			if err != nil {
+				app.logger.Error().Err(err).Msgf("repair: failed to set stale master %s read-only", host)
+			}
 		}
 		err = app.externalReplication.Stop(node)
 		if err != nil {
